@@ -183,12 +183,20 @@ class LineCounter:
         self.fired = None
         self._propagating = 0
         self._prev = None
+        self._last = None
 
     def _local(self, frame, event, arg):
         if event == "line":
             n = self.count
             self.count = n + 1
-            if self.cancel_at is not None and n >= self.cancel_at and self.fired is None:
+            here = (id(frame), frame.f_lineno)
+            repeat = here == self._last
+            self._last = here
+            # CPython 3.12: an exception raised by a trace function at a line event that repeats the previous
+            # line of the same frame (the loop of an inlined comprehension) unwinds WITHOUT running the enclosing
+            # finally blocks -- unlike a real KeyboardInterrupt.  Deliver the cancellation at the next line event
+            # that is not such a repeat (checked with a stand-alone probe; see DESIGN 12.1).
+            if self.cancel_at is not None and n >= self.cancel_at and self.fired is None and not repeat:
                 fn = frame.f_code.co_filename
                 if frame.f_lineno not in finally_lines(fn) and sys.exc_info()[0] is None:
                     self.fired = (os.path.basename(fn), frame.f_lineno, frame.f_code.co_name)
